@@ -35,6 +35,7 @@ unconditionally; C19.5 the per-trait loop has no early exit and consults
 exactly the limits whose trait is requested. Fourth round: C19.3 the
 accounting lists exactly {'cell', 'partition'} of the request,
 unconditionally, and every accepted request passed the per-trait accounting.
+Sweep: C19.3 the listing query is exactly cell and partition, the per-trait accounting is always reached, the overall check is called with the computed totals, accounting loops are never cut short.
 Does NOT decide the sums over arbitrary reservation sets (arithmetic).
 """
 
